@@ -443,7 +443,16 @@ def run(ctx):
                         if gen.count_nodes(spec["sections"][0]) < 8 else "(large)"})
         run_case(case, ctx, sdir)
         if kind == "generated":
-            run_foreign({"spec": enc(foreign_safe(spec)), "i": i}, ctx)
+            # the foreign tool describes the document in its normal form (what the API stores: no
+            # sub-second part, naive times), so the model of the built document is emitted
+            try:
+                with warnings.catch_warnings():
+                    warnings.simplefilter("ignore")
+                    normal = model.model_of(gen.build_doc(spec))
+            except Exception:
+                normal = None
+            if normal is not None:
+                run_foreign({"spec": enc(foreign_safe(normal)), "i": i}, ctx)
         if ctx.time_left() < 0:
             rec.extra["stopped_early_at_doc"] = i
             break
